@@ -7,11 +7,16 @@ import mb, cligen
 SHUT = ["ok", "p,ok", "e:NotConnected", "e:BrokenPipe"] + ["e:" + k for k in cligen.KINDS if k not in ("NotConnected", "BrokenPipe")]
 
 
+ENDS = ["ok", "eof", "eofmid", "rerr", "garbage", "foreign", "werr", "oversize", "dropw", "dropr"]
+
+
 class PROP(Prop):
     id = "C15"
     profiles = ["debug"]
     rule = ("all operation sequences of length <= 4 (quick) / 5 (thorough) over {call, disconnect, set_slave}, crossed with shutdown outcomes "
-            "{Ok, Pending then Ok, every tested io::ErrorKind}, TCP and RTU, plus random longer ones.  Oracle: the transport's shutdown "
+            "{Ok, Pending then Ok, every tested io::ErrorKind} and, for the calls before the first disconnect, with every way a call can end "
+            "(reply, orderly end of stream, end of stream inside the reply, read error, undecodable reply, foreign header, write error, refused "
+            "oversized request, abandoned while sending / receiving), TCP and RTU, plus random longer ones.  Oracle: the transport's shutdown "
             "completes exactly once (first disconnect); its result is Ok for Ok/NotConnected/BrokenPipe, the error otherwise; afterwards every "
             "call returns NotConnected and writes nothing, every disconnect returns Ok without touching the transport. "
             "non-trivial = sequence containing a disconnect followed by another operation")
@@ -31,17 +36,49 @@ class PROP(Prop):
                 outs = SHUT if len(seq) <= 3 else rng.sample(SHUT, 3)
                 for sh in outs:
                     cs.append(self.build(proto, seq, sh, rng))
+            # the calls before the first disconnect end in every possible way
+            for seq in [s for n in range(2, 4 if tier == "quick" else 5) for s in itertools.product("cds", repeat=n)]:
+                if "d" not in seq or "c" not in seq[:seq.index("d")]:
+                    continue
+                for end in ENDS:
+                    for sh in (SHUT if len(seq) == 2 else ["ok", "e:BrokenPipe", "e:PermissionDenied"]):
+                        cs.append(self.build(proto, seq, sh, rng, end=end))
+            for _ in range(150 if tier == "quick" else 1500):
+                seq = tuple(rng.choice("cccds") for _ in range(rng.randrange(3, 8)))
+                if "d" in seq:
+                    cs.append(self.build(proto, seq, rng.choice(SHUT), rng, end="mix"))
         return cs
 
-    def build(self, proto, seq, sh, rng):
+    def build(self, proto, seq, sh, rng, end="ok"):
         slave = slave0 = rng.randrange(256)
         ops, ncall, disconnected = [], 0, False
         for o in seq:
             if o == "c":
-                R = "-"
+                R, W, req, drop = "-", "-", ("RHR", 1, 1), "-"
                 if not disconnected:
-                    R = "d" + cligen.frame(proto, ncall, slave, b"\x03\x02\x00\x07").hex()
-                ops.append(cligen.call_op(("RHR", 1, 1), R=R))
+                    good = cligen.frame(proto, ncall, slave, b"\x03\x02\x00\x07").hex()
+                    e = rng.choice(ENDS) if end == "mix" else end
+                    if e == "ok":
+                        R = "d" + good
+                    elif e == "eof":
+                        R = "eof"
+                    elif e == "eofmid":
+                        R = "d" + good[:6] + ",eof"
+                    elif e == "rerr":
+                        R = "e:ConnectionReset"
+                    elif e == "garbage":
+                        R = "d" + (cligen.frame(proto, ncall, slave, b"\x03\x03\x00\x07\x01").hex() if proto == "tcp" else "ffffffffffffffffffffffffffffffffffffffffffffffff")
+                    elif e == "foreign":
+                        R = "d" + cligen.frame(proto, (ncall + 7) & 0xFFFF, (slave + 1) & 0xFF, b"\x03\x02\x00\x07").hex()
+                    elif e == "werr":
+                        W = "e:BrokenPipe"
+                    elif e == "oversize":
+                        req = ("WMR", 0, [1] * 130)
+                    elif e == "dropw":
+                        W, drop = "p,p", "1"
+                    elif e == "dropr":
+                        R, drop = "p,p,p", "2"
+                ops.append(cligen.call_op(req, W=W, R=R, drop=drop))
                 ncall += 1
             elif o == "d":
                 ops.append("disc %s" % (sh if not disconnected else rng.choice(["ok", "e:Other", "-"])))
